@@ -55,6 +55,11 @@ pub struct AuthCase {
     pub seed: u64,
     pub attack: Attack,
     pub udp: bool,
+    /// datagram attacks on a 2022 server: the attacked session id is first used honestly - by the configured client, and for
+    /// the cross-user splice by the user whose key seals the forged body - so that whatever the server keeps per session
+    /// (derived ciphers, users, filters) exists when the forged datagram arrives
+    #[serde(default)]
+    pub warm: bool,
 }
 
 fn attack_strategy() -> BoxedStrategy<Attack> {
@@ -78,8 +83,8 @@ fn attack_strategy() -> BoxedStrategy<Attack> {
 }
 
 pub fn auth_strategy() -> BoxedStrategy<AuthCase> {
-    (gen::cred_strategy(), gen::addr_strategy(), 1u32..300, any::<u64>(), attack_strategy(), proptest::bool::weighted(0.3))
-        .prop_map(|(CredGen { cred, user }, addr, len, seed, attack, udp)| {
+    (gen::cred_strategy(), gen::addr_strategy(), 1u32..300, any::<u64>(), attack_strategy(), proptest::bool::weighted(0.3), proptest::bool::weighted(0.5))
+        .prop_map(|(CredGen { cred, user }, addr, len, seed, attack, udp, warm)| {
             // protocol-specific attacks get a compatible configuration (constructed, not filtered)
             let aes = if seed % 2 == 0 { ss2022::C22::Aes128 } else { ss2022::C22::Aes256 };
             let (cred, user) = match &attack {
@@ -96,7 +101,7 @@ pub fn auth_strategy() -> BoxedStrategy<AuthCase> {
                 _ => (cred, user),
             };
             let udp = udp && matches!(cred.proto, Proto::SsLegacy(_) | Proto::Ss22(_));
-            AuthCase { cred, user, addr, len, seed, attack, udp }
+            AuthCase { cred, user, addr, len, seed, attack, udp, warm }
         })
         .boxed()
 }
@@ -328,6 +333,7 @@ fn exec_udp(c: &AuthCase, d: &mut Det) -> Outcome {
     let fam = family(c.cred.proto);
     let Ok(keys) = refside::ref_keys(&c.cred) else { return out };
     let payload = gen::keystream(c.seed, 0, c.len as usize);
+    let mut warm_up: Vec<Vec<u8>> = vec![];
     let (wire, kind): (Vec<u8>, &'static str) = match (c.cred.proto, &c.attack) {
         (Proto::SsLegacy(_) | Proto::Ss22(_), Attack::Random(n)) => (d.bytes(*n as usize), "random-bytes"),
         (Proto::SsLegacy(l), Attack::OneBitKey(i)) => {
@@ -384,7 +390,21 @@ fn exec_udp(c: &AuthCase, d: &mut Det) -> Outcome {
                 }
                 _ => return out,
             };
-            let pkt = UdpClientPacket { sid: d.u64(), pid: 0, typ: 0, ts: T0, padding: d.bytes(2), addr: c.addr.clone(), payload: payload.clone(), xnonce: d.bytes(24) };
+            let sid = d.u64();
+            if c.warm {
+                // honest use of the same session id first (the server's one datagram codec and its process-wide cipher cache
+                // are shared by every session, as in the running server)
+                let honest_ipsks = if cc.is_aes() { keys.client_ipsks.clone() } else { vec![] };
+                // (for the cross-user splice only the user whose key seals the forged body: a second honest user on the same
+                // session id would itself be a clash of two users' sessions)
+                let owners: Vec<Vec<u8>> = if matches!(atk, Attack::CrossUser) { vec![upsk.clone()] } else { vec![keys.client_upsk.clone()] };
+                for (k, owner) in owners.iter().enumerate() {
+                    let p0 = UdpClientPacket { sid, pid: k as u64, typ: 0, ts: T0, padding: vec![], addr: c.addr.clone(), payload: b"honest".to_vec(), xnonce: d.bytes(24) };
+                    let w0 = ss2022::encode_udp_client(cc, owner, &honest_ipsks, &p0);
+                    warm_up.push(w0);
+                }
+            }
+            let pkt = UdpClientPacket { sid, pid: 7, typ: 0, ts: T0, padding: d.bytes(2), addr: c.addr.clone(), payload: payload.clone(), xnonce: d.bytes(24) };
             let mut w = ss2022::encode_udp_client(cc, &upsk, &ipsks, &pkt);
             if let Some(named) = splice_named {
                 // identity header = AES-ECB_{iPSK}(BLAKE3(named key)[..16] xor (session id || packet id))
@@ -408,6 +428,10 @@ fn exec_udp(c: &AuthCase, d: &mut Det) -> Outcome {
         out.nontrivial(format!("udp|{}|{}|{}", c.cred.proto.short(), kind, c.cred.users.len()));
     }
     let Ok(sudp) = real::server_udp(&c.cred) else { return out };
+    if !warm_up.is_empty() {
+        let ok = warm_up.iter().filter(|w0| matches!(rt::catch(|| sudp.decode(&mut BytesMut::from(&w0[..]))), Ok(Ok(Some(_))))).count();
+        out.label(format!("warm-session:{}-of-{}-honest-datagrams-accepted", ok, warm_up.len()));
+    }
     let mut src = BytesMut::from(&wire[..]);
     if let Ok(Ok(Some((content, a, s)))) = rt::catch(|| sudp.decode(&mut src)) {
         out.fail(format!("no-credential/{}/server-forwards-datagram-for-{}", fam, kind), format!("datagram not made with the configured credential decoded to {} bytes for {:?} (session {:?})", content.len(), a, s));
@@ -525,8 +549,109 @@ impl SubCheck for UserSeparation {
     }
 }
 
+// ------------------------------------------------------------------ several server entries in one process
+
+/// The server's configuration is a list of entries served by one process. Entries of one protocol with different
+/// credentials must stay apart whatever the process remembers: a peer that proves entry i's credential to entry j (i != j)
+/// is a peer without the configured secret. The history runs in a *fresh child process* (a process-wide cache that is
+/// filled on first use shows only there): codecs are created per connection, the way the accept loops create them.
+#[derive(Clone, Debug, Serialize, Deserialize)]
+pub struct EntriesCase {
+    pub proto: Proto,
+    pub seed: u64,
+    pub entries: u8,
+    /// (entry whose server codec receives the connection, entry whose credential the peer proves)
+    pub steps: Vec<(u8, u8)>,
+    pub udp: bool,
+}
+
+pub struct ServerEntries;
+
+/// Runs in the child: one line of JSON with, per step, (to, with, dialled).
+pub fn entries_child(case_json: &str) -> String {
+    let c: EntriesCase = serde_json::from_str(case_json).expect("harness: case");
+    real::set_clock(Some(T0));
+    let n = c.entries.clamp(2, 4) as usize;
+    let users = |p: Proto| if matches!(p, Proto::Ss22(cc) if cc.is_aes()) { (c.seed % 3) as usize } else { 0 };
+    let creds: Vec<Cred> = (0..n).map(|i| gen::make_cred(c.proto, &format!("entry-{}-{}", i, c.seed), c.seed.wrapping_mul(31).wrapping_add(i as u64 * 7919 + 1), users(c.proto), 0)).collect();
+    let udp = c.udp && matches!(c.proto, Proto::SsLegacy(_) | Proto::Ss22(_));
+    let mut d = Det::new(c.seed, "entries");
+    let addr = Addr::V4([10, 20, 30, 40], 443);
+    let mut res = vec![];
+    for (step, (to, with)) in c.steps.iter().enumerate() {
+        let (to, with) = (*to as usize % n, *with as usize % n);
+        let payload = vec![gen::keystream(c.seed ^ step as u64, 0, 40)];
+        let dial = if udp {
+            let keys = refside::ref_keys(&creds[with]).expect("harness: keys");
+            let wire = match c.proto {
+                Proto::SsLegacy(l) => ss::encode_datagram(l, &keys.legacy_key, &d.bytes(l.key_len()), &addr, &payload[0]),
+                Proto::Ss22(cc) => {
+                    let ipsks = if cc.is_aes() { keys.client_ipsks.clone() } else { vec![] };
+                    ss2022::encode_udp_client(cc, &keys.client_upsk, &ipsks, &UdpClientPacket { sid: d.u64(), pid: step as u64, typ: 0, ts: T0, padding: vec![], addr: addr.clone(), payload: payload[0].clone(), xnonce: d.bytes(24) })
+                }
+                _ => unreachable!(),
+            };
+            let sudp = real::server_udp(&creds[to]).expect("harness: server udp");
+            matches!(rt::catch(|| sudp.decode(&mut BytesMut::from(&wire[..]))), Ok(Ok(Some(_))))
+        } else {
+            let f = refside::ref_client_request(&creds[with], &addr, &payload, &refside::ReqOpts::new(T0), &mut d).expect("harness: request");
+            let sctx = ServerCtx::new(&creds[to]).expect("harness: server ctx");
+            let mut codec = sctx.codec().expect("harness: codec");
+            let (items, _, _) = feed_server(&mut codec, &[f.wire.clone()]);
+            items.iter().any(|i| i.is_dial())
+        };
+        res.push((to, with, dial));
+    }
+    serde_json::to_string(&res).unwrap()
+}
+
+impl SubCheck for ServerEntries {
+    type Case = EntriesCase;
+    fn name(&self) -> &'static str {
+        "server-entries"
+    }
+    fn strategy(&self, _tier: Tier) -> BoxedStrategy<EntriesCase> {
+        (gen::proto_strategy(), any::<u64>(), 2u8..=3, proptest::collection::vec((0u8..3, 0u8..3), 2..7), proptest::bool::weighted(0.3))
+            .prop_map(|(proto, seed, entries, steps, udp)| EntriesCase { proto, seed, entries, steps, udp })
+            .boxed()
+    }
+    fn workers(&self) -> usize {
+        rt::threads().min(8)
+    }
+    fn exec(&self, c: &EntriesCase) -> Outcome {
+        let mut out = Outcome::new();
+        let exe = std::env::current_exe().expect("harness: current_exe");
+        let o = std::process::Command::new(exe).arg("c06-entries").arg(serde_json::to_string(c).unwrap()).output().expect("harness: spawn child");
+        let text = String::from_utf8_lossy(&o.stdout);
+        let Some(line) = text.lines().rev().find(|l| l.starts_with('[')) else {
+            if String::from_utf8_lossy(&o.stderr).contains("harness:") {
+                panic!("harness: entries child failed: {}", String::from_utf8_lossy(&o.stderr));
+            }
+            out.fail("server-entries/child-died", format!("the child process that ran the history ended without a result (status {:?}): {}", o.status.code(), crate::ev::truncate(&String::from_utf8_lossy(&o.stderr), 600)));
+            return out;
+        };
+        let res: Vec<(usize, usize, bool)> = serde_json::from_str(line).expect("harness: child result");
+        let fam = family(c.proto);
+        out.label(format!("proto:{}", c.proto.short()));
+        out.label(if c.udp && matches!(c.proto, Proto::SsLegacy(_) | Proto::Ss22(_)) { "datagrams" } else { "streams" });
+        out.weight = res.len() as u64;
+        let own_ok = res.iter().filter(|(t, w, d)| t == w && *d).count();
+        let cross = res.iter().filter(|(t, w, _)| t != w).count();
+        if cross > 0 && own_ok > 0 {
+            out.nontrivial(format!("{}|{}|{}|{}", c.proto.short(), c.udp, res.iter().map(|(t, w, _)| if t == w { 'o' } else { 'x' }).collect::<String>(), res.first().map(|(t, w, _)| t == w).unwrap_or(false)));
+        }
+        if let Some((k, (t, w, _))) = res.iter().enumerate().find(|(_, (t, w, d))| t != w && *d) {
+            out.fail(
+                format!("server-entries/{}/entry-serves-a-peer-that-proved-another-entrys-credential", fam),
+                format!("step {} of {:?} (receiving entry, proven credential, dialled): entry {} dialled for a peer that holds only entry {}'s credential", k, res, t, w),
+            );
+        }
+        out
+    }
+}
+
 pub fn subs() -> Vec<Box<dyn DynSub>> {
-    let mut v: Vec<Box<dyn DynSub>> = vec![Box::new(NoCredential), Box::new(UserSeparation)];
+    let mut v: Vec<Box<dyn DynSub>> = vec![Box::new(NoCredential), Box::new(UserSeparation), Box::new(ServerEntries)];
     v.extend(crate::props::c06_sys::subs());
     v
 }
@@ -546,5 +671,6 @@ pub fn run(ctx: &mut PropCtx) {
     let t = ctx.tier;
     rt::run_sub(ctx, &NoCredential, t.pick(400_000, 4_000_000));
     rt::run_sub(ctx, &UserSeparation, t.pick(40_000, 400_000));
+    rt::run_sub(ctx, &ServerEntries, t.pick(600, 6_000));
     crate::props::c06_sys::run(ctx);
 }
